@@ -77,7 +77,7 @@ package sign
 //@ func (*round3).StoreMessage
 //@   nopanic[C05]
 //@   requires sg3ok(r) && typeis(msg.Content, *message3) && msg.Content.(*message3) != nil
-//@   requires r.SecretPaillier.PublicKey != nil && pkok(r.SecretPaillier.PublicKey) && pkvals(r.SecretPaillier.PublicKey) && r.SecretPaillier.phi != nil && r.SecretPaillier.phiInv != nil
+//@   requires paillier.skwf(r.SecretPaillier)
 
 // Round 4: delta shares are stored only if non-zero / non-identity; the log proof ties the sender's K to its Delta share
 // over the common Gamma.
